@@ -242,6 +242,16 @@ impl<'a> ConstraintValidator<'a> {
             Ok(d) => d,
             Err(_) => return OwnedValue::Null,
         };
+        let days_in_month = match month {
+            1 | 3 | 5 | 7 | 8 | 10 | 12 => 31,
+            4 | 6 | 9 | 11 => 30,
+            2 if (year % 4 == 0 && year % 100 != 0) || year % 400 == 0 => 29,
+            2 => 28,
+            _ => 0,
+        };
+        if day < 1 || day > days_in_month {
+            return OwnedValue::Null;
+        }
         let days = Self::days_from_ymd(year, month, day);
         OwnedValue::Date(days)
     }
